@@ -90,4 +90,92 @@ example : PMT_WF { PMT.fresh with
     simp only [List.mem_cons, List.not_mem_nil, or_false] at hx
     rcases hx with rfl | rfl <;> exact ⟨by decide, by decide, by decide⟩
 
+/-! STANAG 4609: an exactly filled packet (the decoder handles no other, notes E3) carries the 36
+    metadata bytes in its last 36 bytes: `pesdata[5:-2]` is bytes 157..185 of the packet, the stored
+    checksum bytes 186..187. -/
+
+/-- **STANAG.detects_flip** on the raw 188-byte packet: `buf` is what `STANAG4609.pack` emits (exactly
+    filled; with the optional PES header, or without it when the header heuristic K2 does not fire);
+    `buf'` differs from it in exactly ONE byte at packet offset 157..187 — the universal key, BER length,
+    tags, lengths, the 64-bit time (`pesdata[5:-2]`, the checksummed region) or the stored checksum.
+    Then `buf` is accepted and `buf'` is rejected by `STANAG4609.unpack`, whatever the prior state:
+    key mismatch, tag / length check, or checksum (a one-byte change alters the 16-bit sum by
+    `±d·256^j ≠ 0 mod 2^16`). -/
+theorem STANAG_detects_flip (s t : STANAG) (h : STANAG_WF s) (hw : PES_WF (STANAG_pes s))
+    (hs : s.pes.pkt.sync = 0x47) (hafc : s.pes.pkt.adaption_ctrl = 1 ∨ s.pes.pkt.adaption_ctrl = 3)
+    (hfull : Pkt_used (PES_pkt (STANAG_pes s)) = 188)
+    (hhdr : (PES.ext s.pes = none ∧ ¬ looksLikeHeader (STANAG_pes s)) ∨
+      (∃ w1 w2 hd, PES.ext s.pes = some (w1, w2, hd) ∧ w1 / 16 = 8))
+    (pre suf : Bytes) (a a' : UInt8) (hbuf : Pkt_bytes (PES_pkt (STANAG_pes s)) = pre ++ a :: suf) (hne : a ≠ a')
+    (hlo : 157 ≤ pre.length) :
+    (STANAG.pack s).2 = .ok (pre ++ a :: suf) ∧ (pre ++ a :: suf).length = 188 ∧
+    (STANAG.unpack t (pre ++ a :: suf)).2 = .ok () ∧
+    (STANAG.unpack t (pre ++ a' :: suf)).2 ≠ .ok () := by
+  have hdl : (STANAG_pes s).pesdata.length = 36 := STANAG_data_length _ _ _ _
+  have hst : Pkt_stuffing (PES_pkt (STANAG_pes s)) = [] := by simp [Pkt_stuffing, hfull]
+  have hparts : Pkt_bytes (PES_pkt (STANAG_pes s)) = PES_front (STANAG_pes s) ++ (STANAG_pes s).pesdata := by
+    have := PES_bytes_withData (STANAG_pes s) (STANAG_pes s).pesdata rfl
+    rwa [withData_self, hst, List.append_nil] at this
+  have h188 : (Pkt_bytes (PES_pkt (STANAG_pes s))).length = 188 := by rw [Pkt_bytes_length, hfull]; rfl
+  have hfl : (PES_front (STANAG_pes s)).length = 152 := by
+    have := congrArg List.length hparts
+    rw [h188, List.length_append, hdl] at this; omega
+  have hok : (STANAG.unpack t (Pkt_bytes (PES_pkt (STANAG_pes s)))).2 = .ok () := by
+    rcases hhdr with ⟨hne', hnl⟩ | ⟨w1, w2, hd, he, hw1⟩
+    · rw [STANAG_unpack_headerless s t h hw hs hafc hne' hfull hnl]
+    · rw [STANAG_unpack_header s t h hw hs hafc w1 w2 hd he hw1 hfull]
+  have hpack : (STANAG.pack s).2 = .ok (Pkt_bytes (PES_pkt (STANAG_pes s))) := by
+    rw [STANAG_pack_eq s h, PES_pack_eq _ hw]
+  refine ⟨by rw [hpack, hbuf], by rw [← hbuf, h188], by rw [← hbuf]; exact hok, ?_⟩
+  rw [hparts] at hbuf
+  obtain ⟨pre2, rfl, hdata⟩ := split_right _ _ pre suf a hbuf (by omega)
+  have hhdr' : (PES.ext (STANAG_pes s) = none ∧ ¬ looksLikeHeader (STANAG_pes s)) ∨
+      (∃ w1 w2 hd, PES.ext (STANAG_pes s) = some (w1, w2, hd) ∧ w1 / 16 = 8) := hhdr
+  have hl1 : (pre2 ++ a :: suf).length = 36 := by rw [← hdata, hdl]
+  have hl2 : (pre2 ++ a' :: suf).length = (STANAG_pes s).pesdata.length := by
+    rw [hdata]; simp
+  simp only [List.length_append, hfl] at hlo
+  have ht : ∀ x : UInt8, List.take 1 (pre2 ++ x :: suf) = List.take 1 pre2 := fun x =>
+    List.take_append_of_le_length (by omega)
+  obtain ⟨p, hp, hpd, _⟩ := PES_unpack_withData (STANAG_pes s) t.pes (pre2 ++ a :: suf) (by rw [hdata])
+    hw hs hafc hfull (by omega) (by rw [hdata]) hhdr'
+  obtain ⟨p', hp', hpd', _⟩ := PES_unpack_withData (STANAG_pes s) t.pes (pre2 ++ a' :: suf) hl2
+    hw hs hafc hfull (by rw [hl2, hdl]; decide) (by rw [hdata, ht, ht]) hhdr'
+  rw [List.append_assoc]
+  have hok' : (STANAG.unpack t (PES_front (STANAG_pes s) ++ (pre2 ++ a :: suf))).2 = .ok () := by
+    rw [← hdata, ← hparts]; exact hok
+  have hpos : pre2.length < 36 := by
+    have := hl1; simp at this; omega
+  exact STANAG_detects_flip_pesdata t _ _ p p' pre2 suf a a' hp hp' hpd hpd' hne hl1 ⟨by omega, hpos⟩ hok'
+
+/-- the packet of the pinned test `test_stanag_create` (adaptation length 133, PTS header, time
+    2024-01-25 15:07:59.767139 UTC) satisfies the hypotheses (header case) -/
+def stanagFlipExample : STANAG :=
+  { STANAG.fresh with
+    pes := { PES.fresh with
+             pkt := { Pkt.fresh with adaption_ctrl := 3, continuitycounter := 15,
+                                     adaption_field := some { AF.fresh with length := 133 } },
+             streamid := 0xFC, extension_w1 := some 0x81, extension_w2 := some 0x80,
+             header_data := some [0x21, 0x04, 0x03, 0xFE, 0xD1] },
+    stanag_counter := 15, time_us := 1706195279767139 }
+
+example : STANAG_WF stanagFlipExample ∧ Pkt_used (PES_pkt (STANAG_pes stanagFlipExample)) = 188 ∧
+    stanagFlipExample.pes.pkt.sync = 0x47 ∧ stanagFlipExample.pes.pkt.adaption_ctrl = 3 ∧
+    PES.ext stanagFlipExample.pes = some (0x81, 0x80, [0x21, 0x04, 0x03, 0xFE, 0xD1]) ∧ 0x81 / 16 = 8 := by
+  decide +kernel
+
+/-- literal single-BIT flips: bit `k % 8` of byte `k / 8`, for every bit of the last 31 bytes -/
+theorem STANAG_detects_bitflip (s t : STANAG) (h : STANAG_WF s) (hw : PES_WF (STANAG_pes s))
+    (hs : s.pes.pkt.sync = 0x47) (hafc : s.pes.pkt.adaption_ctrl = 1 ∨ s.pes.pkt.adaption_ctrl = 3)
+    (hfull : Pkt_used (PES_pkt (STANAG_pes s)) = 188)
+    (hhdr : (PES.ext s.pes = none ∧ ¬ looksLikeHeader (STANAG_pes s)) ∨
+      (∃ w1 w2 hd, PES.ext s.pes = some (w1, w2, hd) ∧ w1 / 16 = 8))
+    (k : Nat) (hlo : 157 * 8 ≤ k) (hhi : k < 188 * 8) :
+    (STANAG.unpack t (Acra.Lemmas.CRC.flipBit (Pkt_bytes (PES_pkt (STANAG_pes s))) k)).2 ≠ .ok () := by
+  have h188 : (Pkt_bytes (PES_pkt (STANAG_pes s))).length = 188 := by rw [Pkt_bytes_length, hfull]; rfl
+  obtain ⟨pre, a, suf, hbuf, hpl, hflip⟩ := flipBit_split (Pkt_bytes (PES_pkt (STANAG_pes s))) k (by omega)
+  rw [hflip]
+  exact (STANAG_detects_flip s t h hw hs hafc hfull hhdr pre suf a _ hbuf
+    (fun e => Acra.Lemmas.CRC.flip_ne a (k % 8) (Nat.mod_lt _ (by decide)) e.symm) (by omega)).2.2.2
+
 end Acra.Props.C07
